@@ -112,7 +112,7 @@ class Exec:
             rec["res"] = res.name if res is not None else "none"
         elif k == "rtcp":
             kind = op["kind"]
-            ssrc = sm(op["ssrc"])
+            ssrc = sm(op["ssrc"]) if op["ssrc"] else 0          # (SSRC 0 = "none": never registered)
             ssrcs = [sm(s) for s in op["ssrcs"]]
 
             def ri(s):
@@ -130,7 +130,7 @@ class Exec:
             elif kind == "PSFB":
                 pkt = rtp.RtcpPsfbPacket(fmt=rtp.RTCP_PSFB_PLI, ssrc=12345, media_ssrc=ssrc)
             elif kind == "REMB":
-                pkt = rtp.RtcpPsfbPacket(fmt=rtp.RTCP_PSFB_APP, ssrc=12345, media_ssrc=0,
+                pkt = rtp.RtcpPsfbPacket(fmt=rtp.RTCP_PSFB_APP, ssrc=12345, media_ssrc=ssrc,
                                          fci=rtp.pack_remb_fci(1000000, ssrcs))
             elif kind == "SDES":
                 pkt = rtp.RtcpSdesPacket(chunks=[rtp.RtcpSourceInfo(ssrc=ssrc, items=[(1, b"cname")])])
@@ -211,7 +211,7 @@ class TransportExec(Exec):
     def _rtcp_packet(self, op):
         from aiortc import rtp
         sm = self.ssrc_map
-        kind, ssrc, ssrcs = op["kind"], sm(op["ssrc"]), [sm(x) for x in op["ssrcs"]]
+        kind, ssrc, ssrcs = op["kind"], (sm(op["ssrc"]) if op["ssrc"] else 0), [sm(x) for x in op["ssrcs"]]
 
         def ri(x):
             return rtp.RtcpReceiverInfo(ssrc=x, fraction_lost=0, packets_lost=0, highest_sequence=0, jitter=0, lsr=0, dlsr=0)
@@ -226,7 +226,7 @@ class TransportExec(Exec):
         if kind == "PSFB":
             return rtp.RtcpPsfbPacket(fmt=rtp.RTCP_PSFB_PLI, ssrc=12345, media_ssrc=ssrc)
         if kind == "REMB":
-            return rtp.RtcpPsfbPacket(fmt=rtp.RTCP_PSFB_APP, ssrc=12345, media_ssrc=0, fci=rtp.pack_remb_fci(1000000, ssrcs))
+            return rtp.RtcpPsfbPacket(fmt=rtp.RTCP_PSFB_APP, ssrc=12345, media_ssrc=ssrc, fci=rtp.pack_remb_fci(1000000, ssrcs))
         if kind == "SDES":
             return rtp.RtcpSdesPacket(chunks=[rtp.RtcpSourceInfo(ssrc=ssrc, items=[(1, b"cname")])])
         raise ValueError(kind)
@@ -339,7 +339,7 @@ def random_history(r, length):
             ops.append({"op": "rtp", "ssrc": r.choice(ssrcs), "pt": r.choice(pts)})
         else:
             ops.append({"op": "rtcp", "kind": r.choice(["SR", "RR", "BYE", "RTPFB", "PSFB", "REMB", "SDES"]),
-                        "ssrc": r.choice(ssrcs), "ssrcs": r.sample(ssrcs, r.randint(0, min(4, len(ssrcs))))})
+                        "ssrc": r.choice(ssrcs + [0]), "ssrcs": r.sample(ssrcs, r.randint(0, min(4, len(ssrcs))))})
     return ops
 
 
@@ -418,6 +418,8 @@ def run():
             # binding self-test: a corrupted copy of a trace must be rejected
             bind = None
             for t in traces:
+                if verdicts[t["id"]][0] != "ok":
+                    continue        # (on a tree that violates the property: use an accepted trace)
                 idx = [i for i, s in enumerate(t["steps"]) if s["op"] == "rtp" and s["res"] != "none"]
                 if idx:
                     import copy
@@ -427,7 +429,7 @@ def run():
                     _, bv = T.validate_traces(sc, "TraceRouter", TRACE_CFG, [bad], timeout=300)
                     bind = bv.get(1, ("?", 0))[0]
                     break
-            if bind != "C12.rtp_rule":
+            if bind != "C12.rtp_rule" and all(v[0] == "ok" for v in verdicts.values()):
                 raise T.MachineryError("binding self-test: corrupted trace not rejected (%r)" % (bind,))
 
         nontrivial = 0
@@ -455,7 +457,7 @@ def run():
             "action_coverage": {k: v[1] for k, v in exh.action_counts().items()},
             "samples": [traces[0]["steps"][:8], traces[-1]["steps"][:8]],
         }
-        rep.assumptions = ["REMB media SSRC is 0 and no party is registered on SSRC 0",
+        rep.assumptions = ["no party is registered on SSRC 0 (the conventional media SSRC of a REMB; other values are exercised too)",
                            "receivers/senders are opaque objects compared by identity",
                            "A = M for this property: the property text states the routing rule"]
         return rep.finish()
